@@ -2,12 +2,13 @@
 # tools/try_seed.sh <seed-dir> [Cxx ...] — run checks against a seeded change in ISOLATION:
 # a scratch worktree of /repo with the patch applied next to a scratch copy of /verif (the copy's
 # harness/Cargo.toml is pointed at the scratch worktree). Default: every claimed check, quick tier.
+# TRY_BASE=<commit> evaluates against an older /repo commit (for a change whose target code was later rewritten).
 # Prints, per check, exit code and the violation keys; appends to <seed-dir>/detect.txt.
 D=$(readlink -f "$1"); shift
 N=$(basename "$D")
 ROOT=/tmp/mt/$N
 rm -rf "$ROOT"; mkdir -p "$ROOT"
-git -C /repo worktree add --detach "$ROOT/repo" HEAD -q || exit 2
+git -C /repo worktree add --detach "$ROOT/repo" ${TRY_BASE:-HEAD} -q || exit 2
 ( cd "$ROOT/repo" && git apply "$D/patch.diff" ) || { echo "patch does not apply"; git -C /repo worktree remove --force "$ROOT/repo"; exit 2; }
 # committed state only (like `vp run`): work in progress in /verif must not leak into an evaluation
 mkdir -p "$ROOT/verif" && git -C /verif archive HEAD | tar -x -C "$ROOT/verif" && rm -rf "$ROOT/verif/seeded"
@@ -16,7 +17,7 @@ sed -i "s|path = \"/repo\"|path = \"$ROOT/repo\"|" "$ROOT/verif/harness/Cargo.to
 PROPS="$@"; [ -n "$PROPS" ] || PROPS=$(python3 -c "import json;print(' '.join(c['property_id'] for c in json.load(open('/verif/MANIFEST.json'))['checks']))")
 export CARGO_TARGET_DIR=${MT_TARGET:-/tmp/mt/target} SMT_REPO="$ROOT/repo"
 {
-echo "== $N at verif $(git -C /verif rev-parse --short HEAD), repo $(git -C /repo rev-parse --short HEAD), tier ${TIER:-quick}"
+echo "== $N at verif $(git -C /verif rev-parse --short HEAD), repo $(git -C /repo rev-parse --short ${TRY_BASE:-HEAD}), tier ${TIER:-quick}"
 for P in $PROPS; do
   out=$(cd "$ROOT/verif" && BIN_OVERRIDE=1 ./check $P ${TIER:-quick} 2>&1); rc=$?
   echo "$P rc=$rc $(echo "$out" | grep -E '^\[C' | tail -1 | sed 's/evaluations.*new_violations/new_violations/')"
